@@ -106,6 +106,41 @@ Fixpoint kmap (ks : list (string * list rtree)) (k : string) (f : rtree -> rtree
   end.
 Definition map_kid (r : rtree) (k : string) (f : rtree -> rtree) : rtree := RT (rname r) (rscal r) (kmap (rkids r) k f).
 
+Definition has_str (f : string) (s : bytes) (r : rtree) : bool :=
+  match LayoutTypes.lookup (rscal r) f with Some (VS t) => bytes_eqb t s | _ => false end.
+Definition has_int (f : string) (z : Z) (r : rtree) : bool :=
+  match LayoutTypes.lookup (rscal r) f with Some (VI y) => Z.eqb y z | _ => false end.
+
+Definition value_eqb (a b : value) : bool :=
+  match a, b with VS x, VS y => bytes_eqb x y | VI x, VI y => Z.eqb x y | _, _ => false end.
+
+Fixpoint recval_eqb (a b : recval) : bool :=
+  match a, b with
+  | [], [] => true
+  | (f, v) :: a', (g, w) :: b' => String.eqb f g && value_eqb v w && recval_eqb a' b'
+  | _, _ => false
+  end.
+
+Fixpoint rtree_eqb (a b : rtree) : bool :=
+  match a, b with
+  | RT n s k, RT n' s' k' =>
+      String.eqb n n' && recval_eqb s s'
+      && (fix go (k k' : list (string * list rtree)) : bool :=
+            match k, k' with
+            | [], [] => true
+            | (g, ns) :: r, (g', ns') :: r' =>
+                String.eqb g g'
+                && (fix go2 (ns ns' : list rtree) : bool :=
+                      match ns, ns' with
+                      | [], [] => true
+                      | x :: xs, y :: ys => rtree_eqb x y && go2 xs ys
+                      | _, _ => false
+                      end) ns ns'
+                && go r r'
+            | _, _ => false
+            end) k k'
+  end.
+
 Definition bstr (s : string) : bytes := bytes_of_string s.
 Definition sec_is (h : rtree) (sec : string) : bool := bytes_eqb (sget h "StandardEntryClassCode") (bstr sec).
 
@@ -409,18 +444,41 @@ Definition last_trace (es : list rtree) : Z :=
 Definition checking : bytes := [99; 104; 101; 99; 107; 105; 110; 103]%N.
 Definition savings : bytes := [115; 97; 118; 105; 110; 103; 115]%N.
 
+(* everything the model takes from the regenerated tables, and the abstract validators *)
+Record penv := mkpenv {
+  pe_table : post_table;
+  pe_rm_credit : list Z;            (* upsertOffsets: codes whose amount is taken off the credit total *)
+  pe_deb_chk : Z; pe_deb_sav : Z; pe_cre_chk : Z; pe_cre_sav : Z;   (* transaction codes of the offset entries per account type *)
+  pe_new_entry_detail : rtree;      (* NewEntryDetail() *)
+  pe_merge_fields : list string;    (* ValidateOpts.merge (Gen/JsonTags.opts_merge_fields) *)
+  pe_credit : list Z; pe_debit : list Z;   (* calculateBatchAmounts (Gen/OffsetTable) *)
+  pe_new_batch_control : rtree; pe_new_adv_batch_control : rtree;
+  pe_new_file_control : rtree; pe_new_adv_file_control : rtree; pe_zero_adv_file_control : rtree;
+                                    (* the constructors' values (from the regenerated decode-time defaults) *)
+  pe_file_header_valid : list rtree -> rtree -> bool;    (* FileHeader.Validate() == nil, under the options *)
+  pe_batch_header_valid : list rtree -> rtree -> bool;   (* BatchHeader / IATBatchHeader.Validate() == nil *)
+  pe_file_valid : rtree -> bool }.                       (* File.Validate() == nil *)
+
 Section Post.
-  Variable T : post_table.
-  Variable rm_credit_codes : list Z.           (* upsertOffsets: codes whose amount is taken off the credit total *)
-  Variable deb_chk deb_sav cre_chk cre_sav : Z.  (* transaction codes of the offset entries per account type *)
-  Variable new_entry_detail : rtree.           (* NewEntryDetail() *)
-  Variable merge_fields : list string.         (* ValidateOpts.merge (Gen/JsonTags.opts_merge_fields) *)
-  Variable credit_codes debit_codes : list Z.  (* calculateBatchAmounts (Gen/OffsetTable) *)
-  Variable new_batch_control new_adv_batch_control new_file_control new_adv_file_control zero_adv_file_control : rtree.
-                                               (* the constructors' values (from the regenerated decode-time defaults) *)
-  Variable file_header_valid : list rtree -> rtree -> bool.   (* FileHeader.Validate() == nil, under the options *)
-  Variable batch_header_valid : list rtree -> rtree -> bool.  (* BatchHeader / IATBatchHeader.Validate() == nil *)
-  Variable file_valid : rtree -> bool.                        (* File.Validate() == nil *)
+  Variable E : penv.
+  Let T := pe_table E.
+  Let rm_credit_codes := pe_rm_credit E.
+  Let deb_chk := pe_deb_chk E.
+  Let deb_sav := pe_deb_sav E.
+  Let cre_chk := pe_cre_chk E.
+  Let cre_sav := pe_cre_sav E.
+  Let new_entry_detail := pe_new_entry_detail E.
+  Let merge_fields := pe_merge_fields E.
+  Let credit_codes := pe_credit E.
+  Let debit_codes := pe_debit E.
+  Let new_batch_control := pe_new_batch_control E.
+  Let new_adv_batch_control := pe_new_adv_batch_control E.
+  Let new_file_control := pe_new_file_control E.
+  Let new_adv_file_control := pe_new_adv_file_control E.
+  Let zero_adv_file_control := pe_zero_adv_file_control E.
+  Let file_header_valid := pe_file_header_valid E.
+  Let batch_header_valid := pe_batch_header_valid E.
+  Let file_valid := pe_file_valid E.
 
   Definition header_of (b : rtree) : rtree := match kid b "Header" with h :: _ => h | [] => empty_node end.
 
@@ -687,6 +745,102 @@ Section Post.
         else if file_valid f5 then POk f5 else PInvalid f5
       end
     end.
+
+  (* ---------------------------------------------------------- when does the post-processing leave the text alone?
+     Boolean conditions on the tree [d] of a file (hypotheses of the round-trip theorem, JsonFileFacts.v);
+     the driver evaluates them on generated files. *)
+
+  (* what setBatchesFromJSON attaches to a batch *)
+  Definition decor (o : list rtree) (b : rtree) : rtree :=
+    set_kid (sset b "id" (sget (header_of b) "ID")) "validateOpts" o.
+  Definition decor_iat (o : list rtree) (b : rtree) : rtree :=
+    set_kid (sset b "ID" (sget (header_of b) "ID")) "validateOpts" o.
+  Definition type_name (h : rtree) : bytes :=
+    bstr (convert_type T (string_of_list_ascii (map ascii_of_N (sget h "StandardEntryClassCode")))).
+
+  (* every addenda record already carries the type code of the field it is stored in *)
+  Definition addenda_typed (codes : list (string * string)) (e : rtree) : bool :=
+    forallb (fun fc => forallb (has_str "TypeCode" (bstr (snd fc))) (kid e (fst fc))) codes.
+
+  (* the CTX/ATX heuristic does not fire: the count part of IndividualName is a non-zero number and
+     not (indicator 0 with a positive count) *)
+  Definition catx_stable (e : rtree) : bool :=
+    let ind := iget e "AddendaRecordIndicator" in
+    let fld := atoi (catx_field (sget e "IndividualName")) in
+    negb (fld =? 0) && negb ((ind =? 0) && (0 <? fld)).
+
+  Definition adv_cat_std (e : rtree) : bool :=
+    forallb (fun gc => match kid e (fst gc) with [] => has_str "Category" (bstr (snd gc)) e | _ => true end) (pt_adv_category T).
+
+  Definition batch_prepared (b : rtree) : bool :=
+    let h := header_of b in
+    forallb (fun e => addenda_typed (codes_for T "EntryDetail") e
+                      && (if existsb (sec_is h) (pt_catx T) then catx_stable e else true)) (kid b "Entries")
+    && forallb adv_cat_std (kid b "ADVEntries").
+
+  Definition iat_prepared (b : rtree) : bool :=
+    forallb (addenda_typed (codes_for T "IATEntryDetail")) (kid b "Entries").
+
+  (* tabulated: build, run under the file's options, changes nothing *)
+  Definition batch_built (o : list rtree) (b : rtree) : bool :=
+    match build_batch o (decor o b) with Good b' => rtree_eqb b' (decor o b) | Bad _ => false end.
+  Definition iat_built (o : list rtree) (b : rtree) : bool :=
+    match build_iat o (decor_iat o b) with Good b' => rtree_eqb b' (decor_iat o b) | Bad _ => false end.
+
+  Definition short (s : bytes) : bool := (length s <=? 18)%nat.
+  Definition fields_short (fields : list string) (h : rtree) : bool := forallb (fun f => short (sget h f)) fields.
+  Definition dates_short (d : rtree) : bool :=
+    forallb (fields_short ["FileCreationDate"; "FileCreationTime"]) (kid d "Header")
+    && forallb (fun b => forallb (fields_short ["CompanyDescriptiveDate"; "EffectiveEntryDate"]) (kid b "Header")) (kid d "Batches")
+    && forallb (fun b => forallb (fields_short ["EffectiveEntryDate"]) (kid b "Header")) (kid d "IATBatches").
+
+  (* batch numbers: provided (> 1) or already the sequence number Create would assign *)
+  Fixpoint numbered (ctl : string) (seq : Z) (bs : list rtree) : bool :=
+    match bs with
+    | [] => true
+    | b :: r =>
+        ((1 <? iget (header_of b) "BatchNumber")
+         || (forallb (has_int "BatchNumber" seq) (kid b "Header") && forallb (has_int "BatchNumber" seq) (kid b ctl)))
+        && numbered ctl (seq + 1) r
+    end.
+
+  Definition has_control (b : rtree) : bool := match kid b "Control" with [] => false | _ => true end.
+
+  (* the file control holds what Create computes from the batch controls *)
+  Definition fc_matches (d : rtree) : bool :=
+    let all := kid d "Batches" ++ kid d "IATBatches" in
+    let cnt := bsum "Control" "EntryAddendaCount" all in
+    match kid d "Control" with
+    | [c] =>
+        has_int "BatchCount" (Z.of_nat (length all)) c
+        && has_int "BlockCount" (block_count (2 + 2 * Z.of_nat (length all) + cnt)) c
+        && has_int "EntryAddendaCount" cnt c
+        && has_int "EntryHash" (Z.rem (bsum "Control" "EntryHash" all) P10) c
+        && has_int "TotalDebitEntryDollarAmountInFile" (bsum "Control" "TotalDebitEntryDollarAmount" all) c
+        && has_int "TotalCreditEntryDollarAmountInFile" (bsum "Control" "TotalCreditEntryDollarAmount" all) c
+    | _ => false
+    end.
+
+  (* Create does not stop early *)
+  Definition create_gate (o : list rtree) (d : rtree) : bool :=
+    negb (negb (flag o "SkipAll") && negb (flag o "AllowMissingFileHeader")
+          && negb (file_header_valid o (set_kid (header_of d) "validateOpts" o)))
+    && negb (negb (flag o "SkipAll") && negb (flag o "AllowZeroBatches")
+             && match kid d "Batches", kid d "IATBatches" with [], [] => true | _, _ => false end).
+
+  Definition ready (passed : list rtree) (d : rtree) : bool :=
+    let o := final_opts merge_fields passed (kid d "validateOpts") in
+    let bs := kid d "Batches" in
+    let ibs := kid d "IATBatches" in
+    negb (is_adv_file d)
+    && match kid d "Header" with [_] => true | _ => false end
+    && forallb has_header bs && forallb has_header ibs
+    && forallb batch_prepared bs && forallb iat_prepared ibs
+    && forallb (batch_built o) bs && forallb (iat_built o) ibs
+    && forallb has_control bs
+    && dates_short d
+    && numbered "Control" 1 bs && numbered "Control" (1 + Z.of_nat (length bs)) ibs
+    && fc_matches d && create_gate o d.
 End Post.
 
 (* ------------------------------------------------------------ Writer.Write on a tree *)
